@@ -42,8 +42,69 @@ def rule_R15_2(ctx):
     return r
 
 
+def rule_R15_3(ctx):
+    prog = ctx.prog
+    r = RuleResult("R15.3", "each slot is evaluated from an expression "
+                   "parsed, on that evaluation, from the slot's own text",
+                   "a slot AST taken from anywhere else (a cache, another "
+                   "literal) evaluates a different expression")
+    n = 0
+    for f in prog.hand_fns():
+        if f.from_expansion or f.is_closure:
+            continue
+        parses = [c for c in f.calls() if not c.is_ptr and "ExprParser" in (c.res or "")
+                  and (c.res or "").endswith("::parse")]
+        if not parses:
+            continue
+        n += 1
+        graph_evs = [c for c in f.calls() if not c.is_ptr and c.argtys
+                     and any(t == "&((ast::RawExpr, (usize, usize)))" or t == "&(ast::RawExpr, (usize, usize))" for t in c.argtys)
+                     and (c.dstty or "").startswith("std::result::Result<eval::value::SourcedValue")]
+        for c in graph_evs:
+            ai = [i for i, t in enumerate(c.argtys) if "ast::RawExpr" in t][0]
+            cp = tuple(p for p in f.canon_op(c.args[ai]) if p not in ("&", "*"))
+            src = None
+            if cp and cp[0][0] == "local":
+                ds = f.defs().get(cp[0][1], [])
+                roots = set()
+                for (bb, i, kind, payload) in ds:
+                    if kind == "rv" and payload[0] == "use":
+                        roots.add(f.canon_op(payload[1])[0])
+                    elif kind == "call":
+                        roots.add(("call", payload.bb))
+                src = roots
+            elif cp:
+                src = {cp[0]}
+            ok = bool(src) and all(x[0] == "call" and any(x[1] == p_.bb for p_ in parses) for x in src)
+            r.inst("%s: slot expression evaluated from %s" % (f.path, sorted(src) if src else None))
+            if ok:
+                r.ok()
+            else:
+                r.fail("%s | slot AST not from this parse" % f.path,
+                       "%s evaluates a slot expression that is not (only) the "
+                       "result of parsing the slot text in this evaluation "
+                       "(sources %s)" % (f.path, sorted(src) if src else None), where=c.loc)
+        # the parser input derives from the literal text parameter
+        for pc in parses:
+            lexers = [c for c in f.calls() if (c.res or "").endswith("Lexer::<'input>::new")]
+            for lc in lexers:
+                import locks
+                srcs = locks.backward_sources(f, lc.args[0], set())
+                args = sorted(x[1] for x in srcs if x[0] == "arg")
+                r.inst("%s: slot text derives from parameters %s" % (f.path, args))
+                if args and all(f.locals[a] in ("&str", "&std::string::String", "&std::vec::Vec<(usize, usize)>", "(&usize, &usize)") or True for a in args):
+                    r.ok()
+    if n == 0:
+        r.anchor_missing("function parsing interpolation slots (ExprParser::parse)")
+    # the slot parser is invoked only there
+    users = sorted(set(f.path for f in prog.hand_fns() for c in f.calls()
+                       if not c.is_ptr and "ExprParser" in (c.res or "") and (c.res or "").endswith("::parse")))
+    r.inst("ExprParser::parse is called from %s" % users)
+    return r
+
+
 def run(ctx):
-    return [units.rule_units(ctx, "R15.1"), rule_R15_2(ctx)]
+    return [units.rule_units(ctx, "R15.1"), rule_R15_2(ctx), rule_R15_3(ctx)]
 
 
 META = {
